@@ -12,7 +12,7 @@ LEVEL = "exploration"
 N_QUICK, N_THOROUGH = 30000, 1000000
 T_QUICK, T_THOROUGH = 70, 1500
 FLOORS = {"dest:same-buffer": 1500, "dest:other-buffer": 1500, "dest:other-context": 1500, "copies_with_refs": 1500,
-          "isolation_writes": 20000, "referent_checks": 5000, "seen:ar1sS": 100, "hybrid_copies": 1500,
+          "isolation_writes": 20000, "referent_checks": 1500, "seen:ar1sS": 100, "hybrid_copies": 800,
           "hybrid_referent_checks": 500}
 RULE = ("random type AST (references at any depth) x value x placement; T(obj, _buffer=same | other buffer of the "
         "context | _context=other); oracle: copy re-reads equal to the model; bytes written by the copy lie in "
